@@ -55,6 +55,7 @@ func runC14(r *Report, tier string) {
 	r.rule("R14.2", "one curve table: NewKeyEC2 (alg -> curve), the derivation (curve -> alg), algorithmFromEllipticCurve (Go curve -> alg), curveSize (curve -> Go curve), PublicKey and PrivateKey (alg -> Go curve) are restrictions of one bijection P-256 <-> ES256 <-> elliptic.P256, P-384 <-> ES384 <-> P384, P-521 <-> ES512 <-> P521; curveSize is (BitSize(that curve)+7)/8.")
 	r.rule("R14.3", "padding on encode: Key.MarshalCBOR replaces x (and, by an isomorphic arm, y) by make(size-len(v), size) ++ v exactly under kty == EC2, size > 0 and 0 < len(v) < size, with size = curveSize(the key's own curve) and v the coordinate stored under that same label.")
 	r.rule("R14.4", "relaxed length guard: wherever the key decoder / consistency check compares an EC2 coordinate's length with the curve size, it refuses only len > size (never != or <), so keys with trimmed leading zeros stay acceptable.")
+	r.rule("R14.8", "the key decoder applies a decode mode that admits tags to the key's bytes: Key.MarshalCBOR encodes extra parameters unchecked, and what it emits must parse back.")
 	r.rule("R14.7", "converting a COSE_Key back to a Go key refuses only what the consistency check or the algorithm derivation refuse, an EC2 private key without x or y (compressed point), and unsupported algorithms; no representation-dependent test (e.g. on padded coordinates) stands between a parsed key and its Go form.")
 	r.rule("R14.6", "the key decoder's result depends on the input only: on every non-failure exit every field of the receiver has been assigned (a reset followed by assignments, or unconditional assignments); nothing of a previously parsed key survives.")
 	r.rule("R14.5", "same algorithm both ways: Key.Signer and Key.Verifier hand AlgorithmOrDefault(k) and the result of PrivateKey()/PublicKey() to NewSigner/NewVerifier (R15.3).")
@@ -336,6 +337,29 @@ func runC14(r *Report, tier string) {
 			r.ob("R14.7", fmt.Sprintf("Key.%s:refusal:%s", name, pathID(p)), fn, p.ret, "a key that passed the consistency check is refused only for a missing coordinate (compressed point) or an unsupported algorithm").check(why == "", truncate(et.String(), 80), why)
 		}
 		r.floor("R14.7", nf, 3, "failure paths of Key."+name)
+	}
+
+	// R14.8: the key decoder reads everything the key encoder writes: extra
+	// parameters are encoded as they are (any value, tags included), so the
+	// decode mode applied to the key must admit tags
+	{
+		dec := P.methodOf(keyT, "UnmarshalCBOR")
+		tagsOK := map[string]bool{}
+		for _, mc := range P.modeConfigs() {
+			if !mc.enc && mc.global != "" && mc.opts["TagsMd"] == 0 && len(mc.unknown) == 0 {
+				tagsOK[mc.global] = true
+			}
+		}
+		nm := 0
+		for _, ci := range callsIn(dec, nil) {
+			c := ci.Common()
+			if c.IsInvoke() && isCBORMode(c.Value.Type()) && c.Method.Name() == "Unmarshal" && len(c.Args) == 2 && P.terms.of(c.Args[0]).String() == "$1" {
+				nm++
+				g, isM := P.isModeLoad(P.terms.of(c.Value), false)
+				r.ob("R14.8", "Key.UnmarshalCBOR:mode", dec, ci, "the COSE_Key is decoded with a mode that admits tagged parameter values (the encoder emits them)").check(isM && tagsOK[g], "mode "+g, "the key is decoded with "+P.terms.of(c.Value).String()+": a key whose extra parameter encodes to a tag is emitted by Key.MarshalCBOR and refused here")
+			}
+		}
+		r.floor("R14.8", nm, 1, "mode decodes of the key's bytes")
 	}
 
 	// R14.6: the parsed key is a function of the bytes: at every non-failure
